@@ -92,6 +92,8 @@ func init() {
 		}
 		p.Quick = append(p.Quick, HRun{Entry: "HarnessC03Tagged", Bound: "the malformed placeholder with an explicit !!bool / !!int / !!float / !!str tag at every scalar position of the full skeleton", Require: []string{"site"}})
 		p.Thorough = append(p.Thorough, HRun{Entry: "HarnessC03Tagged", Bound: "explicitly tagged placeholders at every scalar position", Require: []string{"site"}})
+		p.Quick = append(p.Quick, HRun{Entry: "HarnessC03ActionInputs", Bound: "every with: input (script, result-encoding, ref, args, entrypoint, another) of an ordinary action, actions/github-script, a Docker action and an unknown action", Require: []string{"site"}})
+		p.Thorough = append(p.Thorough, HRun{Entry: "HarnessC03ActionInputs", Bound: "with: inputs of four kinds of action", Require: []string{"site"}})
 		props["C03"] = p
 	}
 
@@ -157,6 +159,7 @@ func init() {
 		}
 		p.Quick = append(p.Quick, HRun{Entry: "HarnessC01NoProject", Bound: "LintFiles on two files outside any repository, one with a local reusable workflow call in 4 spellings", Require: []string{"returned"}})
 		p.Thorough = append(p.Thorough, HRun{Entry: "HarnessC01NoProject", Bound: "files outside any repository", Require: []string{"returned"}})
+		p.Quick = append(p.Quick, HRun{Entry: "HarnessC16SnippetWide", Args: []int64{4}, Bound: "snippet rendering of lines of 4 units from {a, space, tab, U+200B, U+3042, U+00E9, U+0301} x 64-bit symbolic column: no panic", Require: []string{"rendered"}})
 		props["C01"] = p
 	}
 	// ---- C04 ----
@@ -188,6 +191,10 @@ func init() {
 			p.Quick = append(p.Quick, HRun{Entry: "HarnessC04If", Args: []int64{L}, Bound: "`if:` condition without ${{ }}: `true` + L arbitrary ASCII bytes without quotes is accepted only if it contains no `}`", Require: []string{"checked"}})
 		}
 		p.Thorough = append(p.Thorough, HRun{Entry: "HarnessC04If", Args: []int64{4}, Bound: "bare if condition with 4 arbitrary bytes", Require: []string{"checked"}})
+		for c := 0; c < 8; c++ {
+			p.Quick = append(p.Quick, HRun{Entry: "HarnessC04ParseIn", Args: []int64{int64(c), 3}, Bound: "3 symbolic tokens inside one of 8 concrete contexts (index operand, call argument, parenthesised receiver, operand of == / ! / nested index): sentences of 6-9 tokens"})
+			p.Thorough = append(p.Thorough, HRun{Entry: "HarnessC04ParseIn", Args: []int64{int64(c), 4}, Bound: "4 symbolic tokens inside one of 8 concrete contexts"})
+		}
 		props["C04"] = p
 	}
 
@@ -211,6 +218,8 @@ func init() {
 			{Entry: "HarnessC19Rule", Args: []int64{2, 1}, Bound: "RuleMatrix on depth <= 2 against depth <= 1 trees", Require: []string{"rows", "exclude-reported", "exclude-silent"}},
 			{Entry: "HarnessC19Rule", Args: []int64{1, 2}, Bound: "RuleMatrix on depth <= 1 against depth <= 2 trees", Require: []string{"rows", "exclude-reported", "exclude-silent"}},
 		}
+		p.Quick = append(p.Quick, HRun{Entry: "HarnessC19Parsed", Bound: "row / include / exclude keys in 3 spellings each through the workflow parser: a matching exclude is never reported", Require: []string{"linted"}})
+		p.Thorough = append(p.Thorough, HRun{Entry: "HarnessC19Parsed", Bound: "key spellings through the parser", Require: []string{"linted"}})
 		props["C19"] = p
 	}
 
@@ -252,7 +261,7 @@ func init() {
 			{Entry: "HarnessC16Echo", Args: []int64{2, 5}, Bound: "... by './' + 2 arbitrary bytes (local paths)", Require: []string{"diagnostic"}},
 			{Entry: "HarnessC16Key", Args: []int64{1}, Bound: "a symbolic 1-byte key in every mapping", Require: []string{"diagnostic"}},
 			{Entry: "HarnessC16Key", Args: []int64{3}, Bound: "a symbolic 3-byte key in every mapping", Require: []string{"diagnostic"}},
-			{Entry: "HarnessC16Snippet", Args: []int64{4}, Bound: "all printable-ASCII/LF sources of 4 bytes x 64-bit symbolic line and column", Require: []string{"line-found", "caret"}},
+			{Entry: "HarnessC16Snippet", Args: []int64{4}, Bound: "all sources of 4 bytes over printable ASCII, LF and CRLF x 64-bit symbolic line and column", Require: []string{"line-found", "caret"}},
 			{Entry: "HarnessC16SnippetWide", Args: []int64{4}, Bound: "source lines of 4 units from {a, space, tab, U+200B, U+3042, U+00E9, U+0301} x 64-bit symbolic column; display widths of the library taken as given", Require: []string{"rendered", "caret"}},
 			{Entry: "HarnessC16TypeNames", Args: []int64{1}, Bound: "a user-chosen name of 1 arbitrary byte (matrix row / include key, dispatch / call input, secret, job output) printed inside an object type", Require: []string{"diagnostic", "type-printed"}},
 			{Entry: "HarnessC16TypeNames", Args: []int64{2}, Bound: "... 2 arbitrary bytes", Require: []string{"diagnostic", "type-printed"}},
@@ -260,6 +269,8 @@ func init() {
 			{Entry: "HarnessC16Matcher", Args: []int64{3}, Bound: "... 3-byte key", Require: []string{"diagnostic"}},
 			{Entry: "HarnessC16CallPath", Args: []int64{2}, Bound: "uses: ./ + 2 arbitrary bytes + .yml at job level inside a project; the file-system error echoes the path", Require: []string{"diagnostic"}},
 			{Entry: "HarnessC16CallPath", Args: []int64{3}, Bound: "... 3 arbitrary bytes", Require: []string{"diagnostic"}},
+			{Entry: "HarnessC16Event", Args: []int64{2}, Bound: "an event name of 2 arbitrary bytes under on: with a branches / tags-ignore / paths / types filter below it", Require: []string{"diagnostic"}},
+			{Entry: "HarnessC16Event", Args: []int64{3}, Bound: "... 3 arbitrary bytes", Require: []string{"diagnostic"}},
 			{Entry: "HarnessC16Docker", Args: []int64{3}, Bound: "uses: docker:// + 3 arbitrary bytes (url.Parse on symbolic text is a free-error contract stub)", Require: []string{"linted"}},
 			{Entry: "HarnessC16Docker", Args: []int64{4}, Bound: "... 4 arbitrary bytes", Require: []string{"linted"}},
 			{Entry: "HarnessC16Glob", Args: []int64{2, 0}, Bound: "filter-pattern validator messages for every 2-byte pattern", Require: []string{"diagnostic"}},
@@ -306,6 +317,8 @@ func init() {
 			HRun{Entry: "HarnessC10Knows", Args: []int64{4, 7}, Bound: "roots of 4, paths of 7 bytes"},
 			HRun{Entry: "HarnessC10Knows", Args: []int64{5, 7}, Bound: "roots of 5, paths of 7 bytes"},
 		)
+		p.Quick = append(p.Quick, HRun{Entry: "HarnessC10FindProject", Bound: "81 layouts of .git / .github/workflows (absent, directory, file) in two nested directories: the file belongs to the nearest repository", Require: []string{"found"}})
+		p.Thorough = append(p.Thorough, HRun{Entry: "HarnessC10FindProject", Bound: "81 repository layouts", Require: []string{"found"}})
 		props["C10"] = p
 	}
 
@@ -369,6 +382,8 @@ func init() {
 			{Entry: "HarnessC09Exprs", Args: []int64{3, 1}, Bound: "earlier chain of depth 3, later of depth 1", Require: []string{"compared"}},
 			{Entry: "HarnessC09Jobs", Bound: "all ordered pairs of 7 job variants x both iteration orders of the jobs map", Require: []string{"compared"}},
 		}
+		p.Quick = append(p.Quick, HRun{Entry: "HarnessC09Calls", Bound: "an invalid local reusable-workflow call (4 spellings) before / between / after two unrelated jobs that share the metadata cache", Require: []string{"compared"}})
+		p.Thorough = append(p.Thorough, HRun{Entry: "HarnessC09Calls", Bound: "invalid call next to valid calls of the same file", Require: []string{"compared"}})
 		props["C09"] = p
 	}
 
@@ -387,6 +402,8 @@ func init() {
 			{Entry: "HarnessC02WorkflowCall", Bound: "local reusable workflow with 3 required inputs and 3 required secrets, none supplied: all 36 orders", Require: []string{"compared"}},
 		}
 		p.Thorough = p.Quick
+		p.Quick = append(p.Quick, HRun{Entry: "HarnessC02Format", Bound: "3 files, custom format: the per-file goroutines run as wholes in each of the 6 completion orders; the list given to the template printer and the returned list are the same", Require: []string{"compared"}})
+		p.Thorough = append(p.Thorough, HRun{Entry: "HarnessC02Format", Bound: "6 goroutine completion orders of a 3-file run", Require: []string{"compared"}})
 		props["C02"] = p
 	}
 
@@ -443,6 +460,7 @@ func init() {
 		)
 		p.Quick = append(p.Quick, HRun{Entry: "HarnessC07If", Bound: "5 malformed `if:` conditions written without ${{ }}, plain or quoted, at a 64-bit symbolic position", Require: []string{"checked"}})
 		p.Thorough = append(p.Thorough, HRun{Entry: "HarnessC07If", Bound: "bare if conditions at symbolic positions", Require: []string{"checked"}})
+		p.Quick = append(p.Quick, HRun{Entry: "HarnessC17Glob", Args: []int64{3, 1}, Bound: "ref filter patterns of 3 bytes: the character a message names is the one at its column (negated patterns included)"}, HRun{Entry: "HarnessC17Glob", Args: []int64{3, 0}, Bound: "path filter patterns of 3 bytes: named character at the column"})
 		props["C07"] = p
 	}
 
